@@ -348,7 +348,13 @@ func (b *GRPCBroker) Accept(id uint32) (net.Listener, error) {
 				defer b.Unlock()
 
 				// No longer need to listen for knocks once the listener is closed.
-				delete(b.serverStreams, id)
+				// The entry is only this listener's to remove while it is still
+				// the one registered for the ID: a listener can be closed more
+				// than once (by its user and by the gRPC server it was served
+				// by), and the ID may have been accepted again in between.
+				if b.serverStreams[id] == p {
+					delete(b.serverStreams, id)
+				}
 
 				return nil
 			},
